@@ -8,7 +8,7 @@ from harness import c02_ref as ref
 from harness import gen_values as gv
 from harness import valcodec as vc
 
-STREAMS = ['wire-encode', 'wire-decode', 'message-decode', 'padding-table', 'spec-vs-reference']
+STREAMS = ['wire-encode', 'wire-decode', 'message-decode', 'padding-table', 'spec-vs-reference', 'wire-history', 'message-encode']
 THEOREMS = ['C02_alignTable', 'C02_padding', 'C02_encode', 'C02_decode', 'C02_encode_conf', 'C02_encode_checked',
             'C02_decode_dict', 'C02_decode_any_fuel', 'C02_decode_fuel_free', 'C02_decode_dict_fuel_free',
             'C02_encode_fuel_free', 'C02_encode_noVariant_fuel_free', 'C02_encode_conf_fuel_free',
@@ -48,6 +48,10 @@ def run(ctx):
     for name, case in ctx.corpus():
         replay(ctx, case, 'corpus:' + name)
 
+    # ---- histories: later uses inside one scenario (equal values of different classes, decode after failed decodes,
+    #      messages of one class built one after the other)
+    run_histories(ctx)
+
     # ---- padding table: 17 codes x offsets 0..63, exhaustive in both tiers
     from txdbus import marshal as m
     codes = [c for _, c, _ in m.dbus_types]
@@ -82,16 +86,29 @@ def run(ctx):
         runs = [(le, off, ()) for le in (True, False) for off in offsets]
         if initial and 'h' in sig:
             runs += [(le, offsets[0], tuple(c01.INITIAL_FDS)) for le in (True, False)]
+        if 'h' not in sig:            # the `oobFDs` keyword left out
+            runs += [(ctx.cases % 2 == 0, offsets[ctx.cases % len(offsets)], 'omit')]
+            ctx.stat('oobFDs-keyword-omitted')
         for le, off, init in runs:
-            want = ref.encode(tys, svs, off, le, fd_base=len(init))
-            r = c01.impl_marshal(sig, top, off, le, list(init))
+            if init == 'omit':
+                want = ref.encode(tys, svs, off, le)
+                r = c01.call_marshal(sig, top, off, le, c01.OMIT)
+            else:
+                want = ref.encode(tys, svs, off, le, fd_base=len(init))
+                r = c01.impl_marshal(sig, top, off, le, list(init))
             ctx.impl_trace()
             if r[0] != 'ok' or r[2] != want or r[1] != len(want):
-                if r[0] == 'ok' and r[1] == len(r[2]) and alternative_encoding(tys, svs, r[2], r[3], off, le):
+                if r[0] == 'ok' and r[1] == len(r[2]) and alternative_encoding(tys, svs, r[2], r[3] or [], off, le):
                     ctx.stat('encode:other-entry-order-or-descriptor-numbering')
                     continue
+                inp = c01.case_json(sig, top, off, le, init)
+                note = c01.fresh_step_note(ctx, 'c02', encode_key(r, want), lambda: {
+                    'op': 'enc', 'sig': sig, 'values': vc.to_line(top), 'off': off, 'le': le, 'want': want.hex(),
+                    'fds': 'omit' if init == 'omit' else vc.to_line(list(init))})
+                if note:
+                    inp['note'] = note
                 ctx.violation(encode_key(r, want), 'marshal bytes differ from the DBus wire format',
-                              inp=c01.case_json(sig, top, off, le, init), observed=c01.canon_marshal(r),
+                              inp=inp, observed=c01.canon_marshal(r),
                               expected='ok %d %s' % (len(want), vc.bytes_hex(want)))
         le, off = rng.random() < 0.5, rng.choice(offsets)
         speclines.append('specenc %s %d %s %s' % (vc.str_hex(sig), off, 'L' if le else 'B', vc.to_line(top)))
@@ -138,14 +155,24 @@ def run(ctx):
         for le, off in picks:
             enc = ref.encode(tys, svs, off, le)
             data = c01.PREFIX[:off] + enc + c01.SUFFIX
-            u = c01.impl_unmarshal(sig, data, off, le, fds)
+            if not fds and 'h' not in sig and (le, off) == picks[ctx.cases % len(picks)]:
+                u = c01.call_unmarshal(sig, data, off, le, c01.OMIT)       # the `oobFDs` keyword left out
+                ctx.stat('decode:oobFDs-keyword-omitted')
+            else:
+                u = c01.impl_unmarshal(sig, data, off, le, fds)
             ctx.impl_trace()
             ok = u[0] == 'ok' and u[1] == len(enc) and c01.py_equal(expected, u[2])
             if ok and c01.float_bits_differ(expected, u[2]):
                 ctx.stat('note:decoded-double-equal-but-other-bit-pattern')
             if not ok:
+                inp = {'sig': sig, 'data': data.hex(), 'off': off, 'le': le, 'fds': vc.to_line(fds)}
+                note = c01.fresh_step_note(ctx, 'c02', decode_key(u, enc), lambda: {
+                    'op': 'dec', 'sig': sig, 'data': data.hex(), 'off': off, 'le': le, 'fds': vc.to_line(fds),
+                    'want': vc.to_line(expected), 'want_n': len(enc)})
+                if note:
+                    inp['note'] = note
                 ctx.violation(decode_key(u, enc), 'unmarshal of a spec-conformant encoding does not return the value',
-                              inp={'sig': sig, 'data': data.hex(), 'off': off, 'le': le, 'fds': vc.to_line(fds)},
+                              inp=inp,
                               observed=c01.canon_unmarshal(u)[:4000],
                               expected=('ok %d %s' % (len(enc), vc.to_line(expected)))[:4000])
         le, off = picks[rng.randrange(len(picks))]
@@ -195,6 +222,291 @@ def run(ctx):
         if out is not None and out[i] != specwant[i]:
             ctx.disagree('spec-vs-reference', {'line': ln[:2000]}, out[i][:2000], specwant[i][:2000])
     c01.check_unmarshal_batch(ctx, 'wire-decode', ubatch)
+
+
+# ------------------------------------------------------------------------------------------ histories (state-leak round)
+# Steps as in harness/c01.py (`enc` with the reference bytes in 'want', `dec` with the reference value in 'want') plus
+#   {'op': 'msg', 'cls', 'kw': {...constructor keywords...}, 'sig', 'values' (line of the body list) | None, 'fds': 'omit' | line,
+#    'want_type', 'want_flags', 'want_fields': [[code, type, value] ...], 'want_body': hex [, 'only_if_ok': true]}
+#         construct a message; its rawMessage must be the DBus wire format of exactly this message: the strict reference
+#         decoder reads the fixed header and the field array, re-encoding what it read reproduces the bytes, zero padding to
+#         8, the body is the reference encoding, the declared body length is its length, and the header fields - compared as
+#         a sorted list, so every field once, no further one, in any order - are the fields of the message.
+def msg_step(st):
+    from txdbus import message
+    kw = dict(st['kw'])
+    if st.get('sig') is not None:
+        kw['signature'] = st['sig']
+        kw['body'] = vc.from_line(st['values'])
+    if st.get('fds', 'omit') != 'omit':
+        kw['oobFDs'] = list(vc.from_line(st['fds']))
+    try:
+        raw = getattr(message, st['cls'])(**kw).rawMessage
+    except Exception as e:     # noqa: BLE001
+        if st.get('only_if_ok'):
+            return None
+        return ('message-encode', 'constructing a valid message raised', '%s: %s' % (c01.exc_name(e), str(e)[:120]), 'a message')
+    why = message_not_wire_format(raw, st)
+    if why:
+        return ('message-encode', 'the bytes of a constructed message are not the wire format of that message: ' + why[0],
+                'rawMessage %s; %s' % (raw.hex()[:600], why[1]), why[2])
+    return None
+
+
+def message_not_wire_format(raw, st):
+    """None, or (what, observed, expected)."""
+    global HEADER_TYS
+    if HEADER_TYS is None:
+        HEADER_TYS = gv.parse_sig('yyyyuua(yv)')
+    if raw[:1] not in (b'l', b'B'):
+        return ('byte order mark', repr(raw[:1]), "'l' or 'B'")
+    le = raw[:1] == b'l'
+    try:
+        hdr, n = ref.decode(HEADER_TYS, raw, 0, le)
+        again = ref.encode(HEADER_TYS, hdr, 0, le)
+    except ref.RefError as e:
+        return ('the header is not a conformant encoding of yyyyuua(yv)', str(e), 'a header')
+    if again != raw[:n]:
+        return ('the header is not the canonical encoding of what it holds', raw[:n].hex(), again.hex())
+    padn = (8 - n % 8) % 8
+    if len(raw) < n + padn or any(raw[n:n + padn]):
+        return ('header padding to 8 bytes', raw[n:n + padn].hex(), '%d zero bytes' % padn)
+    body = raw[n + padn:]
+    _, mtype, flags, version, blen, serial, fields = hdr
+    want_body = bytes.fromhex(st['want_body'])
+    if body != want_body:
+        return ('body bytes', body.hex()[:400], want_body.hex()[:400])
+    if blen != len(body):
+        return ('declared body length', str(blen), str(len(body)))
+    if mtype != st['want_type'] or version != 1 or flags != st['want_flags']:
+        return ('type / flags / version', repr((mtype, flags, version)), repr((st['want_type'], st['want_flags'], 1)))
+    got = sorted([code, gv.render(v[1]), v[2]] for code, v in fields)
+    # fields that say what their absence says are not a difference: UNIX_FDS 0, the empty SIGNATURE
+    got = [f for f in got if f not in ([9, 'u', 0], [8, 'g', ''])]
+    want = sorted(list(f) for f in st['want_fields'])
+    if got != want:
+        return ('header fields', 'fields %r' % (got,), 'fields %r' % (want,))
+    return None
+
+
+EXTRA_OPS = {'msg': msg_step}
+
+
+def history_failure(histories):
+    """See harness/c01.history_failure (this one knows the `msg` step); called by the fresh-process re-run."""
+    for h, steps in enumerate(histories):
+        bad, _ = c01.run_history(steps, EXTRA_OPS)
+        if bad:
+            bad['history'] = h
+            return bad
+    return None
+
+
+def enc_step(tys, svs, pvs, off, le, fds='L 0', **more):
+    """An `enc` step judged against the reference encoder (types written from the classes of the values, not inferred
+    by txdbus)."""
+    want = ref.encode(tys, svs, off, le, fd_base=0 if fds in ('omit', 'none') else len(vc.from_line(fds)))
+    st = {'op': 'enc', 'sig': gv.render_all(tys), 'values': vc.to_line(pvs), 'off': off, 'le': le, 'fds': fds, 'want': want.hex()}
+    st.update(more)
+    return st
+
+
+def dec_step(tys, svs, off, le, suffix=True):
+    fds = []
+    for t, x in zip(tys, svs):
+        gv.collect_fds(t, x, fds)
+    enc = ref.encode(tys, svs, off, le)
+    expected = [gv.expected_decoded(t, x) for t, x in zip(tys, svs)]
+    sig = gv.render_all(tys)
+    return {'op': 'dec', 'sig': sig, 'data': (c01.PREFIX[:off] + enc + (c01.SUFFIX if suffix else b'')).hex(), 'off': off, 'le': le,
+            'fds': vc.to_line(fds) if ('h' in sig or fds) else 'omit', 'want': vc.to_line(expected), 'want_n': len(enc)}
+
+
+def gen_decode_history(rng):
+    """G8 (iii): a reference-encoded value is decoded, then damaged encodings under the SAME signature (nothing is asked of
+    them), then the first one again, the same value at another offset in the other byte order, and another value."""
+    for _ in range(100):
+        d = rng.choice([1, 2, 2, 3])
+        tys = gv.gen_types(rng, d, 3)
+        if not tys or len(gv.render_all(tys)) > 60:
+            continue
+        svs = [gv.gen_spec_free(rng, t, d) for t in tys]
+        off, le = rng.randrange(16), rng.random() < 0.5
+        first = dec_step(tys, svs, off, le)
+        if len(first['want']) + len(first['data']) > 1500:
+            continue
+        break
+    steps = [first]
+    sig = first['sig']
+    body = ref.encode(tys, svs, off, le)
+    for _ in range(rng.choice([1, 2, 3, 5])):
+        kind, bad = gv.damage(rng, body, le)
+        steps.append({'op': 'dec', 'sig': sig, 'data': (c01.PREFIX[:off] + bad).hex(), 'off': off, 'le': le, 'fds': first['fds'],
+                      'poison': kind})
+    steps.append(dict(first))
+    steps.append(dec_step(tys, svs, (off + rng.choice([1, 2, 3, 4, 5, 7])) % 16, not le))
+    svs2 = [gv.gen_spec_free(rng, t, d) for t in tys]
+    other = dec_step(tys, svs2, off, le, suffix=rng.random() < 0.5)
+    if len(other['want']) + len(other['data']) <= 3000:
+        steps.append(other)
+    return 'decode-after-failed-decode', steps
+
+
+MSG_NAMES = {'path': ['/org/example/Obj', '/', '/a/b'], 'member': ['Method', 'Ping', 'm_2'],
+             'interface': ['org.example.Iface', 'a.b'], 'destination': ['org.example.Dest', ':1.42'],
+             'error_name': ['org.example.Error.Failed', 'a.b']}
+
+
+def msg_call(rng, body, with_fds, fds_mode=None):
+    """A `msg` step: a MethodCallMessage with (tys, svs, pvs) or no body; descriptors only when `with_fds`."""
+    kw = {'path': rng.choice(MSG_NAMES['path']), 'member': rng.choice(MSG_NAMES['member'])}
+    fields = [[1, 'o', kw['path']], [3, 's', kw['member']]]
+    if rng.random() < 0.5:
+        kw['interface'] = rng.choice(MSG_NAMES['interface'])
+        fields.append([2, 's', kw['interface']])
+    if rng.random() < 0.4:
+        kw['destination'] = rng.choice(MSG_NAMES['destination'])
+        fields.append([6, 's', kw['destination']])
+    flags = 0
+    if rng.random() < 0.25:
+        kw['expectReply'] = False
+        flags |= 1
+    if rng.random() < 0.25:
+        kw['autoStart'] = False
+        flags |= 2
+    return _msg_finish('MethodCallMessage', 1, kw, fields, flags, body,
+                       fds_mode or ('L 0' if with_fds or rng.random() < 0.5 else 'omit'))
+
+
+def msg_other(rng, cls, body):
+    if cls == 'SignalMessage':
+        kw = {'path': rng.choice(MSG_NAMES['path']), 'member': rng.choice(MSG_NAMES['member']),
+              'interface': rng.choice(MSG_NAMES['interface'])}
+        fields, mtype = [[1, 'o', kw['path']], [3, 's', kw['member']], [2, 's', kw['interface']]], 4
+    elif cls == 'MethodReturnMessage':
+        kw = {'reply_serial': rng.choice([1, 7, 2 ** 32 - 1])}
+        fields, mtype = [[5, 'u', kw['reply_serial']]], 2
+    else:
+        kw = {'error_name': rng.choice(MSG_NAMES['error_name']), 'reply_serial': rng.choice([1, 9, 2 ** 31])}
+        fields, mtype = [[4, 's', kw['error_name']], [5, 'u', kw['reply_serial']]], 3
+    if rng.random() < 0.4:
+        kw['destination'] = rng.choice(MSG_NAMES['destination'])
+        fields.append([6, 's', kw['destination']])
+    return _msg_finish(cls, mtype, kw, fields, 0, body, 'omit')
+
+
+def _msg_finish(cls, mtype, kw, fields, flags, body, fds_mode):
+    st = {'op': 'msg', 'cls': cls, 'kw': kw, 'sig': None, 'values': None, 'fds': fds_mode, 'want_type': mtype,
+          'want_flags': flags, 'want_body': ''}
+    if body is not None:
+        tys, svs, pvs = body
+        fds = []
+        for t, x in zip(tys, svs):
+            gv.collect_fds(t, x, fds)
+        base = 0 if fds_mode == 'omit' else len(vc.from_line(fds_mode))
+        st.update(sig=gv.render_all(tys), values=vc.to_line(list(pvs)), want_body=ref.encode(tys, svs, 0, True, fd_base=base).hex())
+        fields = fields + [[8, 'g', st['sig']]]
+        if fds:
+            fields = fields + [[9, 'u', base + len(fds)]]
+    st['want_fields'] = sorted(fields)
+    return st
+
+
+def gen_body(rng, with_fds):
+    for _ in range(200):
+        tys = gv.gen_types(rng, rng.choice([1, 1, 2]), 3, allow_fd=with_fds)
+        if with_fds and 'h' not in gv.render_all(tys):
+            tys.insert(rng.randrange(len(tys) + 1), rng.choice(['h', 'h', ('a', 'h'), ('(', ('h', 's'))]))
+        try:
+            svs = [gv.gen_spec(rng, t, 2) for t in tys]
+            pvs = [gv.to_python(rng, t, x) for t, x in zip(tys, svs)]
+            fds = []
+            for t, x in zip(tys, svs):
+                gv.collect_fds(t, x, fds)
+            if with_fds and not fds:          # an empty array of descriptors: nothing travels out of band
+                continue
+            if len(vc.to_line(pvs)) > 600:
+                continue
+            return tys, svs, pvs
+        except (gv.Retry, ValueError):
+            continue
+    raise RuntimeError('could not generate a message body')
+
+
+def gen_message_history(rng, fixed=False):
+    """G10: messages of ONE class one after the other in one process - two (or more) calls that carry descriptors, then one
+    that carries none, then again one with descriptors; the other three message classes in between."""
+    if fixed:
+        plan = ['fd', 'fd', 'plain', 'fd', 'nobody', 'fd2', 'plain', 'fdomit', 'fdomit', 'signal', 'return', 'error', 'plain']
+    else:
+        plan = [rng.choice(['fd', 'fd', 'fd2', 'plain', 'nobody', 'signal', 'return', 'error', 'fdomit'])
+                for _ in range(rng.choice([4, 6, 8]))]
+        if plan.count('fd') + plan.count('fd2') < 2:
+            plan = ['fd', 'fd2'] + plan
+    steps = []
+    for what in plan:
+        if what == 'fd':
+            steps.append(msg_call(rng, gen_body(rng, True), True))
+        elif what == 'fd2':           # the caller's list already holds a descriptor: UNIX_FDS counts all that accompany the message
+            steps.append(msg_call(rng, gen_body(rng, True), True, 'L 1 i 100'))
+        elif what == 'fdomit':        # descriptors in the body, no list given: refused today (nothing asked then); if a message
+            st = msg_call(rng, gen_body(rng, True), True, 'omit')     # is built it must be that of a list that was empty
+            st['only_if_ok'] = True
+            steps.append(st)
+        elif what == 'plain':
+            steps.append(msg_call(rng, gen_body(rng, False), False))
+        elif what == 'nobody':
+            steps.append(msg_call(rng, None, False))
+        else:
+            cls = {'signal': 'SignalMessage', 'return': 'MethodReturnMessage', 'error': 'ErrorMessage'}[what]
+            steps.append(msg_other(rng, cls, None if rng.random() < 0.3 else gen_body(rng, False)))
+    return 'message-encode', steps
+
+
+def gen_ladder_history(rng, name, seq):
+    """G8 (ii): the members of a group of values that are `==` and hash alike but belong to different classes, one after
+    the other in one context; the bytes of each must be the reference encoding for the type ITS class has."""
+    steps = []
+    for context, member, tag in seq:
+        tys, svs, pvs = gv.ladder_case(context, member, tag)
+        steps.append(enc_step(tys, svs, pvs, rng.randrange(16), rng.random() < 0.5, rng.choice(['L 0', 'omit', 'none'])))
+    return 'ladder:' + name.split(':')[0], steps
+
+
+def gen_omitted_history(rng, sig):
+    """G2 for the encoder: a signature with descriptors, `oobFDs` left out.  Nothing is asked if marshal refuses (it does:
+    there is no list to put the descriptor in); if it returns bytes they must be the encoding with indices from 0 - every
+    time."""
+    tys = gv.parse_sig(sig)
+    for _ in range(50):
+        try:
+            svs = [gv.gen_spec(rng, t, 2) for t in tys]
+            pvs = [gv.to_python(rng, t, x) for t, x in zip(tys, svs)]
+            break
+        except gv.Retry:
+            continue
+    off, le = rng.randrange(16), rng.random() < 0.5
+    om = enc_step(tys, svs, pvs, off, le, 'omit', only_if_ok=True)
+    return 'omitted', [dict(om), dict(om), enc_step(tys, svs, pvs, off, le, 'L 0'), dict(om),
+                       enc_step(tys, svs, pvs, off, le, vc.to_line(list(c01.INITIAL_FDS))), dict(om)]
+
+
+def run_histories(ctx):
+    import random
+    rng = random.Random(repr((ctx.seed, 'C02', 'history', ctx.widen)))
+    hs = c01.Histories(ctx, 'wire-history', 'c02', EXTRA_OPS, 'C02 wire format')
+    for name, seq in gv.ladders(9 if ctx.tier == 'quick' else 20, all_rotations=(ctx.tier != 'quick')):
+        hs.run(*gen_ladder_history(rng, name, seq))
+    for _ in range(ctx.scale(quick=80, thorough=2500)):
+        hs.run(*gen_decode_history(rng))
+    for sig in c01.OMITTED_SIGS:
+        hs.run(*gen_omitted_history(rng, sig))
+    ctx.note('wire-history: %d marshal / unmarshal calls inside histories compared with the (history-free) model' % len(hs.pairs))
+    c01.check_pairs(ctx, 'wire-history', hs.pairs)
+    hm = c01.Histories(ctx, 'message-encode', 'c02', EXTRA_OPS, 'C02 wire format')
+    hm.run(*gen_message_history(rng, fixed=True))
+    for _ in range(ctx.scale(quick=40, thorough=1000)):
+        hm.run(*gen_message_history(rng))
 
 
 HEADER_TYS = None
@@ -316,6 +628,9 @@ def decode_key(u, enc):
 def replay(ctx, data, stream='replay'):
     c01.register()
     inp = data.get('input', data)
+    if 'history' in inp or 'histories' in inp:
+        c01.replay_histories(ctx, stream, inp, 'c02', EXTRA_OPS, 'C02 wire format')
+        return
     if 'message' in inp:
         from txdbus import message
         raw, sig = bytes.fromhex(inp['message']), inp['sig']
@@ -384,11 +699,14 @@ def replay(ctx, data, stream='replay'):
     init = vc.from_line(inp['initial_fds']) if 'initial_fds' in inp else []
     tys = gv.parse_sig(sig)
     ctx.case(stream, sample=inp)
-    r = c01.impl_marshal(sig, pvs, off, le, list(init))
+    if inp.get('fds') == 'omit':
+        r = c01.call_marshal(sig, pvs, off, le, c01.OMIT)
+    else:
+        r = c01.impl_marshal(sig, pvs, off, le, list(init))
     svs = to_spec(tys, pvs)
     want = ref.encode(tys, svs, off, le, fd_base=len(init))
     if (r[0] != 'ok' or r[2] != want or r[1] != len(want)) and not (
-            r[0] == 'ok' and r[1] == len(r[2]) and alternative_encoding(tys, svs, r[2], r[3], off, le)):
+            r[0] == 'ok' and r[1] == len(r[2]) and alternative_encoding(tys, svs, r[2], r[3] or [], off, le)):
         ctx.violation(encode_key(r, want), 'marshal bytes differ from the DBus wire format', inp=inp,
                       observed=c01.canon_marshal(r), expected='ok %d %s' % (len(want), vc.bytes_hex(want)))
 
